@@ -102,36 +102,15 @@ def run_shard(spec, ctx):
         censor_others = events and nb_ev == 1
         b2_tables = []
         if events and nb_ev != 1:
-            # competing events: the others keep their events in cohort B (every kind of event stays present).  Separately: the cohort in which the
-            # others are censored, read with the announced number of events - refused by the reader when a kind of event is then absent
-            # (documented), and when it is accepted the target's ingested event data must be what they are in cohort A
+            # competing events: the others keep their events in cohort B (every kind of event stays present).  Separately (relation B2 below): the
+            # cohorts in which the others are censored, so that a kind of event goes absent
             ctx.count("competing_event_cohorts")
-            from leaspy.io.data import Data as _Data2, Dataset as _Dataset2
-
             ev_of = df.groupby("ID", sort=False)["EVENT_BOOL"].first()
             cands = [target] + [x for x in ids if x != target and int(ev_of[x]) == 1][:3]  # an individual with the first kind of event: the last kind goes absent
             for tg in cands:
                 dfB2 = dfB.copy()
                 dfB2.loc[dfB2["ID"] != tg, "EVENT_BOOL"] = 0
                 b2_tables.append((tg, dfB2))
-                try:
-                    dsB2 = _Dataset2(_Data2.from_dataframe(dfB2, data_type="joint", factory_kws={"nb_events": nb_ev}))
-                except Exception:
-                    ctx.count("competing_event_cohorts_with_an_absent_kind_refused_by_the_reader")
-                    continue
-                ctx.count("competing_event_cohorts_with_the_others_censored_accepted")
-                rA, rB = list(ds.indices).index(tg), list(dsB2.indices).index(tg)
-                bad_attr = None
-                for attr in ("event_time", "event_bool"):
-                    a_, b_ = getattr(ds, attr)[rA], getattr(dsB2, attr)[rB]
-                    if a_.shape != b_.shape or not torch.equal(a_, b_):
-                        bad_attr = (attr, a_.tolist(), b_.tolist())
-                        break
-                if bad_attr:
-                    ctx.violation("indep/ingested-event-data-of-an-individual-depend-on-the-others",
-                                  f"{bad_attr[0]} of individual {tg} as ingested: {bad_attr[1]} in the cohort, {bad_attr[2]} when the other individuals' events are censored",
-                                  {"index": i, "grid": list(g), "target": tg})
-                    break
         if censor_others:
             # the other individuals' events become censored (the target's own event data are untouched): possibly nobody is left with an observed event
             dfB.loc[other, "EVENT_BOOL"] = False
@@ -196,30 +175,31 @@ def run_shard(spec, ctx):
         if changed_others:
             ctx.count("others_terms_really_changed")
             ctx.distinct(case["model"], "B", "terms")
-        # ---- B2 (competing events): the others' events censored, the table read WITHOUT announcing the number of events (the reader then sizes the
-        # event columns from the kinds of events present in the cohort).  Either the reader or the model refuses the cohort, or the terms of the
-        # individual whose data did not change are what they are in cohort A
+        # ---- B2 (competing events): the others' events censored, the table read with the number of events announced, and without (the reader then
+        # sizes the event columns from the kinds of events present in the cohort).  Either the reader or the model refuses the cohort, or the terms
+        # of the individual whose data did not change are what they are in cohort A
         for tg, dfB2 in b2_tables:
             from leaspy.io.data import Data as _Data3, Dataset as _Dataset3
 
-            ctx.count("competing_event_cohorts_read_without_announcing_the_number_of_events")
-            try:
-                with contextlib.redirect_stdout(io.StringIO()):
-                    dsU = _Dataset3(_Data3.from_dataframe(dfB2, data_type="joint"))
-                sU = state_for(dsU, list(range(n)))
-                rU, rA = list(dsU.indices).index(tg), ids.index(tg)
-                got = {t: tv(sU[t])[rU] for t in ind_terms}
-            except Exception as e:
-                ctx.count("competing_event_cohorts_with_an_absent_kind_refused")
-                ctx.note("competing_event_cohort_refusal_" + type(e).__name__, str(e)[:120])
-                continue
-            ctx.count("competing_event_cohorts_with_an_absent_kind_evaluated")
-            for t in ind_terms:
-                if not sh.bit_same(tv(sA[t])[rA], got[t]):
-                    viol("indep/term-depends-on-the-kinds-of-events-of-the-others", f"'{t}' of individual {tg} changed when only the other individuals' events were censored "
-                         f"(event data of the cohort: {tuple(ds.event_bool.shape)} -> {tuple(dsU.event_bool.shape)}, model with {nb_ev} events)",
-                         A=tv(sA[t])[rA].flatten()[:4].tolist(), B=got[t].flatten()[:4].tolist())
-                    break
+            for reading, fkw in (("announced", {"factory_kws": {"nb_events": nb_ev}}), ("not-announced", {})):
+                ctx.count(f"competing_event_cohorts_with_the_others_censored/{reading}")
+                try:
+                    with contextlib.redirect_stdout(io.StringIO()):
+                        dsU = _Dataset3(_Data3.from_dataframe(dfB2, data_type="joint", **fkw))
+                    sU = state_for(dsU, list(range(n)))
+                    rU, rA = list(dsU.indices).index(tg), ids.index(tg)
+                    got = {t: tv(sU[t])[rU] for t in ind_terms}
+                except Exception as e:
+                    ctx.count(f"competing_event_cohorts_with_the_others_censored/{reading}/refused")
+                    ctx.note(f"competing_event_cohort_refusal/{reading}/" + type(e).__name__, str(e)[:120])
+                    continue
+                ctx.count(f"competing_event_cohorts_with_the_others_censored/{reading}/evaluated")
+                for t in ind_terms:
+                    if not sh.bit_same(tv(sA[t])[rA], got[t]):
+                        viol("indep/term-depends-on-the-kinds-of-events-of-the-others", f"'{t}' of individual {tg} changed when only the other individuals' events were censored "
+                             f"(number of events {reading}; event data of the cohort: {tuple(ds.event_bool.shape)} -> {tuple(dsU.event_bool.shape)}, model with {nb_ev} events)",
+                             A=tv(sA[t])[rA].flatten()[:4].tolist(), B=got[t].flatten()[:4].tolist())
+                        break
         # ---- totals --------------------------------------------------------------------------------------
         for tot, per in (("nll_attach", "nll_attach_ind"), ("nll_regul_ind_sum", "nll_regul_ind_sum_ind")):
             if tot in names and per in names:
